@@ -127,7 +127,8 @@ StepSet0(st0, e) ==
 (*     cancelled context (req.ok = FALSE);                                   *)
 (*   - WaitUntilComplete returns promptly (latency e.n in ms);               *)
 (*   - the tracers terminate, the subscriber channel is closed;              *)
-(*   - the census of goroutines the instance started is empty.               *)
+(*   - the census of goroutines the instance started is empty;               *)
+(*   - events handed to the instance afterwards are dropped: the call returns*)
 PromptMs == 2000
 PostCancel(st, e) ==
   CASE e.ev = "req"        -> IF e.ok THEN {} ELSE {st}
@@ -135,6 +136,8 @@ PostCancel(st, e) ==
     [] e.ev = "tracerdone" -> IF e.ok THEN {st} ELSE {}
     [] e.ev = "subclosed"  -> IF e.ok THEN {st} ELSE {}
     [] e.ev = "census"     -> IF e.n = 0 THEN {st} ELSE {}
+    \* C11 / C07: handing an event to the cancelled instance returns (e.n of 6 deliveries did)
+    [] e.ev = "postdeliver" -> IF e.ok THEN {st} ELSE {}
     [] e.ev = "blocked"    -> {}
     \* C02: the cease trace stands for "every token has been consumed": when the context
     \* is cancelled while the instance is parked at unanswered requests (the completion
